@@ -475,9 +475,9 @@ def _iterdsl_programs(run, path, name, limit=None, seed=1):
             if r["cons"] not in ("for_each", "fold"):
                 return False
             for i, k in enumerate(ks):
-                if k == "rev" and any(x in ("zip", "flat_map") for x in ks[i + 1:]):
+                if k == "rev" and any(x in ("zip", "flat_map", "flatten") for x in ks[i + 1:]):
                     return True
-                if k == "flat_map" and any(x in ("filter", "filter_map", "skip", "skip_while", "take", "take_while") for x in ks[i + 1:]):
+                if k in ("flat_map", "flatten") and any(x in ("filter", "filter_map", "skip", "skip_while", "take", "take_while") for x in ks[i + 1:]):
                     return True
             return False
         pri = [r for r in lines if interacting(r)]
